@@ -115,7 +115,13 @@ pub fn job_c13(out_dir: &str, tier: &str, seed: u64) {
             for cuts in &cutsets {
                 let tl = driver::run(&cfg, &doc, cuts, &RunOpts::default());
                 let (toks, res) = project(&tl);
-                if res != "ok" { continue; }
+                if res != "ok" {
+                    // observers only: a failing or panicking run is itself a finding
+                    n += 1;
+                    let rec = json!({"id": format!("c13-{n}"), "kind": "failed", "res": res});
+                    sh.push(&rec, &json!({"id": rec["id"], "cfg": cfg, "input": doc, "cuts": cuts}), None, true);
+                    continue;
+                }
                 let key = Value::Array(toks.clone()).to_string();
                 if !seen.insert(key) { sh.evaluations += 1; continue; }
                 n += 1; nread += 1;
@@ -135,7 +141,13 @@ pub fn job_c13(out_dir: &str, tier: &str, seed: u64) {
             for cuts in [vec![], vec![1024], vec![3, 1027], vec![1000 + rng.below(60)], vec![rng.below(doc.len()), doc.len() - 2]] {
                 let tl = driver::run(&cfg, &doc, &cuts, &RunOpts::default());
                 let (toks, res) = project(&tl);
-                if res != "ok" { continue; }
+                if res != "ok" {
+                    // observers only: a failing or panicking run is itself a finding
+                    n += 1;
+                    let rec = json!({"id": format!("c13-{n}"), "kind": "failed", "res": res});
+                    sh.push(&rec, &json!({"id": rec["id"], "cfg": cfg, "input": doc, "cuts": cuts}), None, true);
+                    continue;
+                }
                 n += 1; nread += 1;
                 let wit = witnesses(enc, &doc, &toks);
                 let rec = json!({"id": format!("c13-{n}"), "kind": "read", "enc": enc.name(), "input": doc, "toks": toks, "wit": wit});
@@ -171,6 +183,36 @@ pub fn job_c13(out_dir: &str, tier: &str, seed: u64) {
             }
         }
     }
+    // ---- (c2) inserted content after a meta charset switch: encoded in the *declared* encoding ----------------------
+    for (e0, label, meta) in [("utf-8", "windows-1251", "<meta charset=windows-1251>"), ("utf-8", "shift_jis", "<meta http-equiv=content-type content='text/html; charset=shift_jis'>"),
+                              ("windows-1252", "koi8-r", "<META CHARSET=koi8-r>"), ("utf-8", "gbk", "<meta charset=gbk>"), ("shift_jis", "utf-8", "<meta charset=utf-8>"),
+                              ("utf-8", "windows-1252", "<meta charset=windows-1252>")] {
+        let enc1 = enc_of(label);
+        let mut input = meta.as_bytes().to_vec();
+        let m = input.len();
+        input.extend_from_slice(b"<p>x</p><!--c-->");
+        for (ci, content) in contents.iter().enumerate() {
+            let variants: Vec<(Value, usize)> = vec![
+                (json!({"elem":[{"sel":"p","element":[{"op":"before","a":[content]}]}]}), m),
+                (json!({"elem":[{"sel":"p","element":[{"op":"append","a":[content]}]}]}), m + 4),
+                (json!({"elem":[{"sel":"p","element":[{"op":"after","a":[content, false]}]}]}), m + 8),
+                (json!({"doc":[{"end":[{"op":"append","a":[content]}]}]}), m + 16),
+                (json!({"elem":[{"sel":"p","element":[{"op":"s_prepend","a":[[content]]}]}]}), m + 3),
+                (json!({"doc":[{"comments":[{"op":"after","a":[content]}]}]}), m + 16),
+            ];
+            for (vi, (c, p)) in variants.iter().enumerate() {
+                if quick && (ci + vi) % 2 == 1 && vi != 3 { continue; }
+                let cfg = gen::merge(c, &json!({"strict": false, "enc": e0, "meta": true}));
+                let cuts: Vec<usize> = if (ci + vi) % 3 == 0 { vec![m] } else { vec![] };
+                let tl = driver::run(&cfg, &input, &cuts, &RunOpts::default());
+                let res = if tl.iter().any(|e| e["e"] == "ret" && e["res"] != "ok") { "err" } else { "ok" };
+                let (encoded, _, _) = enc1.encode(content);
+                n += 1; nins += 1;
+                let rec = json!({"id": format!("c13-{n}"), "kind": "insert", "input": input, "p": p, "sink": sink_bytes(&tl), "res": res, "encoded": encoded.as_ref()});
+                sh.push(&rec, &json!({"id": rec["id"], "cfg": cfg, "input": input, "cuts": cuts}), None, true);
+            }
+        }
+    }
     // ---- (e) configuration-time refusal -------------------------------------------------------------------
     for enc in [encoding_rs::UTF_16LE, encoding_rs::UTF_16BE, encoding_rs::ISO_2022_JP, encoding_rs::REPLACEMENT, encoding_rs::UTF_8,
                 encoding_rs::SHIFT_JIS, encoding_rs::GB18030, encoding_rs::X_USER_DEFINED, encoding_rs::WINDOWS_1252, encoding_rs::BIG5, encoding_rs::EUC_KR] {
@@ -184,8 +226,13 @@ pub fn job_c13(out_dir: &str, tier: &str, seed: u64) {
         ("<meta http-equiv=content-type content='text/html; charset=koi8-r'>", Some("koi8-r")), ("<meta charset=utf-16>", None),
         ("<meta charset=bogus>", None), ("<meta name=x content=y>", None), ("<meta charset=utf-8>", Some("utf-8")),
         ("<meta http-equiv=Content-Type content=\"text/html;charset=gbk\">", Some("gbk")), ("<meta charset=windows-1252>", Some("windows-1252")),
+        // non-ASCII-compatible labels are refused in both forms
+        ("<meta http-equiv=content-type content='text/html; charset=utf-16'>", None), ("<meta http-equiv=Content-Type content=\"text/html;charset=utf-16le\">", None),
+        ("<meta http-equiv=content-type content='text/html; charset=UTF-16BE'>", None), ("<meta http-equiv=content-type content='text/html; charset=iso-2022-jp'>", None),
+        ("<meta charset=utf-16be>", None), ("<meta charset=ISO-2022-JP>", None), ("<meta http-equiv=content-type content='text/html; charset=csiso2022jp'>", None),
+        ("<meta http-equiv=content-type content='text/html; charset=replacement'>", None),
     ];
-    for mi in 0..(if quick { 120 } else { 3000 }) {
+    for mi in 0..(if quick { 400 } else { 6000 }) {
         let e0 = *rng.pick(&["utf-8", "windows-1252", "shift_jis"]);
         let enc0 = enc_of(e0);
         let (m1, l1) = metas[rng.below(metas.len())];
@@ -207,7 +254,6 @@ pub fn job_c13(out_dir: &str, tier: &str, seed: u64) {
         let cuts: Vec<usize> = match mi % 3 { 0 => vec![], 1 => (1..doc.len()).collect(), _ => { let mut c: Vec<usize> = (0..3).map(|_| rng.below(doc.len() + 1)).collect(); c.sort_unstable(); c } };
         let tl = driver::run(&cfg, &doc, &cuts, &RunOpts::default());
         let (toks, res) = project(&tl);
-        if res != "ok" { continue; }
         let nenc = tl.iter().filter(|e| e["e"] == "enc").count();
         // bytes that had reached the sink when the (second) set_encoding arrived
         let mut sink_len = 0usize; let mut seen_enc = 0usize; let mut after_output = false;
@@ -216,7 +262,7 @@ pub fn job_c13(out_dir: &str, tier: &str, seed: u64) {
             if e["e"] == "enc" { seen_enc += 1; if seen_enc == 2 && sink_len > meta_end { after_output = true; } }
         }
         n += 1; nmeta += 1;
-        let rec = json!({"id": format!("c13-{n}"), "kind": "meta", "input": doc, "metaEnd": meta_end, "same": enc1 == enc0, "nenc": nenc,
+        let rec = json!({"id": format!("c13-{n}"), "kind": "meta", "res": res, "input": doc, "metaEnd": meta_end, "same": enc1 == enc0, "nenc": nenc,
             "switchAfterOutput": after_output, "toks": toks, "wit0": witnesses(enc0, &doc, &toks), "wit1": witnesses(enc1, &doc, &toks)});
         sh.push(&rec, &json!({"id": rec["id"], "cfg": cfg, "input": doc, "cuts": cuts}), None, true);
     }
